@@ -79,6 +79,12 @@ func TestC13(t *testing.T) {
 		}
 		d := hx.GenDerived(t, base, steps)
 		in := d.Input(t)
+		// now and then the frame has an earlier life that touched its data columns (no cell text it did not hold before; observed afterwards)
+		if steps > 2 && len(in.Cols) > 0 && rapid.IntRange(0, 5).Draw(t, "history") == 0 {
+			var hist hx.History
+			d.QF, in, hist = hx.GenHistory(t, d.QF, in, true)
+			d.Route = append(d.Route, hist.String())
+		}
 		header := rapid.IntRange(0, 3).Draw(t, "header") > 0
 		order := in.Names()
 		explicitOrder := rapid.Bool().Draw(t, "columnsopt")
